@@ -1,5 +1,267 @@
-//! part 3 (placeholder)
+//! part 3: CSV import. Generated tables -> CSV text -> real `vrp_cli::extensions::import::import_problem("csv", …)`
+//! -> canonical summary of the imported document (what the model must reproduce) + real validation
+//! (`ValidationContext::validate`) + full real reader (`read_pragmatic`).
+//!
+//! Case input: rows with integer fields; coordinates in micro-degrees; dates as integer seconds (rendered as
+//! RFC 3339), `null` (empty field) or `{"bad": "text"}` (written verbatim).
+
 use serde_json::{Value, json};
+use std::io::BufReader;
+use vrp_cli::extensions::import::import_problem;
+use vrp_pragmatic::format::problem::*;
+use vrp_pragmatic::format::{CoordIndex, Location};
+use vrp_pragmatic::validation::ValidationContext;
+use vrp_verif_harness::pragen::{parse_ts, ts};
 use vrp_verif_harness::*;
-pub fn gen_cases(_rng: &mut Rng, _tier: Tier, _cases: &mut Vec<Value>) {}
-pub fn exec(_case: &Value) -> Value { json!({}) }
+
+fn coord_text(v: i64) -> String {
+    let sign = if v < 0 { "-" } else { "" };
+    let a = v.abs();
+    format!("{sign}{}.{:06}", a / 1_000_000, a % 1_000_000)
+}
+
+fn date_text(v: &Value) -> String {
+    match v {
+        Value::Null => String::new(),
+        Value::Number(n) => ts(n.as_i64().unwrap_or(0)),
+        other => other["bad"].as_str().unwrap_or("").to_string(),
+    }
+}
+
+fn num_text(v: &Value) -> String {
+    match v {
+        Value::Number(n) => n.to_string(),
+        other => other.as_str().unwrap_or("").to_string(),
+    }
+}
+
+pub fn render(case: &Value) -> (String, String) {
+    let mut jobs = String::from("ID,LAT,LNG,DEMAND,DURATION,TW_START,TW_END\n");
+    for r in case["jobs"].as_array().cloned().unwrap_or_default() {
+        jobs.push_str(&format!(
+            "{},{},{},{},{},{},{}\n",
+            r["id"].as_str().unwrap_or(""),
+            coord_text(r["lat"].as_i64().unwrap_or(0)),
+            coord_text(r["lng"].as_i64().unwrap_or(0)),
+            num_text(&r["demand"]),
+            num_text(&r["duration"]),
+            date_text(&r["tw_start"]),
+            date_text(&r["tw_end"]),
+        ));
+    }
+    let mut vehicles = String::from("ID,LAT,LNG,CAPACITY,TW_START,TW_END,AMOUNT,PROFILE\n");
+    for r in case["vehicles"].as_array().cloned().unwrap_or_default() {
+        vehicles.push_str(&format!(
+            "{},{},{},{},{},{},{},{}\n",
+            r["id"].as_str().unwrap_or(""),
+            coord_text(r["lat"].as_i64().unwrap_or(0)),
+            coord_text(r["lng"].as_i64().unwrap_or(0)),
+            num_text(&r["capacity"]),
+            date_text(&r["tw_start"]),
+            date_text(&r["tw_end"]),
+            num_text(&r["amount"]),
+            r["profile"].as_str().unwrap_or(""),
+        ));
+    }
+    (jobs, vehicles)
+}
+
+fn micro(f: f64) -> Value {
+    let x = f * 1e6;
+    if (x - x.round()).abs() < 1e-3 { json!(x.round() as i64) } else { json!({"f": f}) }
+}
+
+fn loc(l: &Location) -> Value {
+    match l {
+        Location::Coordinate { lat, lng } => json!([micro(*lat), micro(*lng)]),
+        other => json!({"other": other.to_string()}),
+    }
+}
+
+fn date(s: &str) -> Value {
+    match parse_ts(s) {
+        Some(t) if ts(t) == s => json!(t),
+        _ => json!({"bad": s}),
+    }
+}
+
+fn fnum(f: f64) -> Value {
+    if f.fract() == 0. && f.abs() < 9.0e15 { json!(f as i64) } else { json!({"f": f.to_string()}) }
+}
+
+fn tasks(ts_: &Option<Vec<JobTask>>) -> Value {
+    match ts_ {
+        None => Value::Null,
+        Some(list) => Value::Array(
+            list.iter()
+                .map(|t| {
+                    json!({
+                        "places": t.places.iter().map(|p| json!({
+                            "loc": loc(&p.location), "duration": fnum(p.duration), "tag": p.tag,
+                            "times": p.times.as_ref().map(|tws| tws.iter().map(|tw| tw.iter().map(|s| date(s)).collect::<Vec<_>>()).collect::<Vec<_>>()),
+                        })).collect::<Vec<_>>(),
+                        "demand": t.demand, "order": t.order,
+                    })
+                })
+                .collect(),
+        ),
+    }
+}
+
+/// canonical summary of the imported document: every field the import fills, jobs sorted by id and profiles
+/// sorted by name (both come out of hash containers)
+fn summary(p: &Problem) -> Value {
+    let mut jobs: Vec<&Job> = p.plan.jobs.iter().collect();
+    jobs.sort_by(|a, b| a.id.cmp(&b.id));
+    let jobs: Vec<Value> = jobs
+        .iter()
+        .map(|j| {
+            json!({"id": j.id, "pickups": tasks(&j.pickups), "deliveries": tasks(&j.deliveries), "services": tasks(&j.services),
+                   "replacements": tasks(&j.replacements),
+                   "extras": j.skills.is_some() || j.value.is_some() || j.group.is_some() || j.compatibility.is_some()})
+        })
+        .collect();
+    let vehicles: Vec<Value> = p
+        .fleet
+        .vehicles
+        .iter()
+        .map(|v| {
+            json!({
+                "typeId": v.type_id, "vehicleIds": v.vehicle_ids, "profile": v.profile.matrix, "scale": v.profile.scale,
+                "costs": [v.costs.fixed.map(|f| f.to_string()), v.costs.distance.to_string(), v.costs.time.to_string()],
+                "shifts": v.shifts.iter().map(|s| json!({
+                    "start": [date(&s.start.earliest), s.start.latest, loc(&s.start.location)],
+                    "end": s.end.as_ref().map(|e| json!([e.earliest, date(&e.latest), loc(&e.location)])),
+                    "extras": s.breaks.is_some() || s.reloads.is_some() || s.recharges.is_some(),
+                })).collect::<Vec<_>>(),
+                "capacity": v.capacity, "extras": v.skills.is_some() || v.limits.is_some(),
+            })
+        })
+        .collect();
+    let mut profiles: Vec<Value> = p.fleet.profiles.iter().map(|m| json!([m.name, m.speed])).collect();
+    profiles.sort_by_key(|v| v.to_string());
+    json!({"jobs": jobs, "vehicles": vehicles, "profiles": profiles,
+           "extras": p.plan.relations.is_some() || p.plan.clustering.is_some() || p.fleet.resources.is_some() || p.objectives.is_some()})
+}
+
+fn caught<T>(f: impl FnOnce() -> T) -> Result<T, String> {
+    std::panic::catch_unwind(std::panic::AssertUnwindSafe(f)).map_err(|e| {
+        e.downcast_ref::<String>().cloned().or_else(|| e.downcast_ref::<&str>().map(|s| s.to_string())).unwrap_or_default()
+    })
+}
+
+pub fn exec(case: &Value) -> Value {
+    let (jobs, vehicles) = render(case);
+    let imported = caught(|| import_problem("csv", Some(vec![BufReader::new(jobs.as_bytes()), BufReader::new(vehicles.as_bytes())])));
+    let problem = match imported {
+        Ok(Ok(p)) => p,
+        Ok(Err(_)) => return json!({"import": "error"}),
+        // `demand.abs()` of i32::MIN (overflow checks are on in this build)
+        Err(_) => return json!({"import": "panic"}),
+    };
+    // real validation rules on the imported document
+    let coord_index = CoordIndex::new(&problem);
+    let mut codes: Vec<String> = match ValidationContext::new(&problem, None, &coord_index).validate() {
+        Ok(()) => vec![],
+        Err(e) => e.errors.iter().map(|e| e.code.clone()).collect(),
+    };
+    codes.sort();
+    // and the complete real reader (approximated routing for coordinates); real side only
+    let text = {
+        let mut buf = std::io::BufWriter::new(Vec::new());
+        serialize_problem(&problem, &mut buf).unwrap();
+        String::from_utf8(buf.into_inner().unwrap()).unwrap()
+    };
+    let reads = match caught(|| text.read_pragmatic().is_ok()) {
+        Ok(b) => json!(b),
+        Err(msg) => json!({"panic": msg}),
+    };
+    json!({"import": "ok", "doc": summary(&problem), "codes": codes, "reads": reads})
+}
+
+const JOB_IDS: &[&str] = &["j1", "j2", "j3", "job_4", "J5", "departure", "break", "x"];
+const VEH_IDS: &[&str] = &["v1", "v2", "truck", "car_1", "v_3"];
+const PROFILES: &[&str] = &["car", "truck", "bike"];
+
+pub fn gen_cases(rng: &mut Rng, tier: Tier, cases: &mut Vec<Value>) {
+    let n = if tier == Tier::Thorough { 20000 } else { 700 };
+    for i in 0..n {
+        // ok: tables inside TablesOk by construction; any: random deviations
+        let ok_mode = i % 3 != 2;
+        let coord = |rng: &mut Rng| rng.range(-89_000_000, 89_000_000);
+        let n_ids = rng.usize(1, 4);
+        let mut jobs = vec![];
+        for _ in 0..rng.usize(0, 7) {
+            let id = if ok_mode { JOB_IDS[rng.usize(0, 4.min(n_ids))] } else { JOB_IDS[rng.usize(0, JOB_IDS.len() - 1)] };
+            let (s, e) = (rng.range(0, 5000), rng.range(5000, 90000));
+            let (tw_start, tw_end) = match rng.below(if ok_mode { 2 } else { 7 }) {
+                0 => (json!(null), json!(null)),
+                1 => (json!(s), json!(e)),
+                2 => (json!(s), json!(null)),
+                3 => (json!(null), json!(e)),
+                4 => (json!(e), json!(s)),
+                5 => (json!({"bad": "not-a-date"}), json!(e)),
+                _ => (json!(s), json!(s)),
+            };
+            let demand = match rng.below(10) {
+                0 if !ok_mode && rng.chance(1, 3) => *rng.pick(&[i32::MAX as i64, i32::MIN as i64 + 1, i32::MIN as i64, 1 << 31, -(1 << 31) - 1]),
+                1 | 2 => 0,
+                _ => rng.range(-5, 5),
+            };
+            let duration = if !ok_mode && rng.chance(1, 40) { -1 } else { rng.range(0, 900) };
+            jobs.push(json!({"id": id, "lat": coord(rng), "lng": coord(rng), "demand": demand, "duration": duration,
+                             "tw_start": tw_start, "tw_end": tw_end}));
+        }
+        // extreme amounts only in rows that do not share their id: the real E1102 rule sums `i32` amounts per job
+        // (overflow: panic with overflow checks, silent wrap without) — outside the model
+        for k in 0..jobs.len() {
+            let id = jobs[k]["id"].clone();
+            if jobs[k]["demand"].as_i64().unwrap().abs() > 1000 && jobs.iter().filter(|j| j["id"] == id).count() > 1 {
+                jobs[k]["demand"] = json!(rng.range(-5, 5));
+            }
+        }
+        if ok_mode {
+            // balance pickups and deliveries of every id that has both
+            let ids: Vec<String> = jobs.iter().map(|j| j["id"].as_str().unwrap().to_string()).collect();
+            for id in ids {
+                let sum = |jobs: &Vec<Value>, pos: bool| -> i64 {
+                    jobs.iter().filter(|j| j["id"] == id.as_str()).map(|j| j["demand"].as_i64().unwrap()).filter(|d| (*d > 0) == pos && *d != 0).sum()
+                };
+                let (p, d) = (sum(&jobs, true), -sum(&jobs, false));
+                if p > 0 && d > 0 && p != d {
+                    // adjust the first row of the heavier side... simplest: add the difference to a row of the lighter side
+                    let want_pos = p < d;
+                    let diff = (p - d).abs();
+                    if let Some(j) = jobs.iter_mut().find(|j| j["id"] == id.as_str() && (j["demand"].as_i64().unwrap() > 0) == want_pos && j["demand"].as_i64().unwrap() != 0) {
+                        let cur = j["demand"].as_i64().unwrap();
+                        j["demand"] = json!(if want_pos { cur + diff } else { cur - diff });
+                    }
+                }
+            }
+        }
+        let mut vehicles = vec![];
+        let n_v = if ok_mode { rng.usize(1, 4) } else { rng.usize(0, 4) };
+        let mut pool: Vec<&str> = VEH_IDS.to_vec();
+        rng.shuffle(&mut pool);
+        for k in 0..n_v {
+            let id = if ok_mode || rng.chance(3, 4) { pool[k] } else { pool[0] };
+            let (s, e) = (rng.range(0, 5000), rng.range(5000, 90000));
+            let (tw_start, tw_end) = match rng.below(if ok_mode { 1 } else { 5 }) {
+                0 => (json!(s), json!(e)),
+                1 => (json!(e), json!(s)),
+                2 => (json!({"bad": "2020-13-45"}), json!(e)),
+                3 => (json!(s), json!(null)),
+                _ => (json!(s), json!(s)),
+            };
+            let big = if rng.chance(1, 8) { 1 << 31 } else { 2 };
+            let capacity = if ok_mode { rng.range(0, 30) } else { *rng.pick(&[-1, 0, 5, 10, 7, 3, i32::MAX as i64, big]) };
+            let amount = if ok_mode { rng.range(1, 4) } else if rng.chance(1, 30) { -1 } else { rng.range(0, 3) };
+            // rows sharing a PROFILE (the S8a shape) are the normal case
+            let hi = if rng.chance(1, 2) { 0 } else { 2 };
+            let profile = PROFILES[rng.usize(0, hi)];
+            vehicles.push(json!({"id": id, "lat": coord(rng), "lng": coord(rng), "capacity": capacity, "tw_start": tw_start,
+                                 "tw_end": tw_end, "amount": amount, "profile": profile}));
+        }
+        cases.push(json!({"k": "csv", "mode": if ok_mode { "ok" } else { "any" }, "jobs": jobs, "vehicles": vehicles}));
+    }
+}
